@@ -34,8 +34,9 @@ type rpub struct {
 }
 
 type rsub struct {
-	filter string
-	qos    int
+	filter  string
+	qos     int
+	resumed bool // installed from the stored session when the connection was accepted
 }
 
 type rconn struct {
@@ -243,7 +244,12 @@ func (rb *refBroker) deliver(ex *expectation, m rpub, prop string) {
 		c := rb.conns[id]
 		for k, sb := range c.subs {
 			if rb.match(k, m.topic) {
-				ex.conn[id] = append(ex.conn[id], want{descPub(m.topic, m.payload, min(m.qos, sb.qos), false), prop})
+				pr := prop
+				if sb.resumed {
+					// a subscription of a resumed session: that it is active again, with its granted QoS, is C10
+					pr = "C10: (" + prop + ")"
+				}
+				ex.conn[id] = append(ex.conn[id], want{descPub(m.topic, m.payload, min(m.qos, sb.qos), false), pr})
 			}
 		}
 	}
@@ -498,7 +504,7 @@ func (rb *refBroker) feed(ex *expectation, id int, b []byte) {
 				}
 				g := min(qs[i], 2)
 				codes = append(codes, byte(g))
-				c.subs[rb.key(f)] = rsub{f, g}
+				c.subs[rb.key(f)] = rsub{f, g, false}
 				c.topics[f] = g
 				rets = append(rets, rb.retainedFor(f, g)...)
 			}
@@ -659,7 +665,7 @@ func (rb *refBroker) check(ev hx.Group, obs map[int][][]byte, calls []call) []fa
 					}
 					sort.Strings(fs)
 					for _, f := range fs {
-						c.subs[rb.key(f)] = rsub{f, old[f]}
+						c.subs[rb.key(f)] = rsub{f, old[f], true}
 						c.topics[f] = old[f]
 					}
 					if q, ok := rb.sessQ2[c.cid]; ok {
@@ -692,7 +698,7 @@ func (rb *refBroker) check(ev hx.Group, obs map[int][][]byte, calls []call) []fa
 			if rb.inproc[s] == nil {
 				rb.inproc[s] = map[string]rsub{}
 			}
-			rb.inproc[s][rb.key(f)] = rsub{f, q}
+			rb.inproc[s][rb.key(f)] = rsub{f, q, false}
 			for _, r := range rb.retainedFor(f, q) {
 				ex.calls = append(ex.calls, fmt.Sprintf("call sub=%d %s", s, descPub(r.topic, r.payload, r.qos, true)))
 			}
